@@ -336,6 +336,41 @@ func Drivers(nthreads int) []Driver {
 				*out = append(*out, obsMap(m, fmt.Sprintf("%s %d %v %v %s", d.T.Format(time.RFC3339), d.I, d.F, d.B, d.S)))
 			}}
 		}},
+		{"16 every built-in string test (grammars, classes, affixes, lists) on shared schemas; each thread starts with another test", nthreads, func() *Shared {
+			re := regexp.MustCompile("^[a-z]+-[0-9]+$")
+			list := []string{"red", "green"}
+			tests := []struct {
+				name string
+				s    *z.StringSchema[string]
+				vals []string
+			}{
+				{"Email", z.String().Email(), []string{"a@b.co", "nope", "x@y"}},
+				{"UUID", z.String().UUID(), []string{"123e4567-e89b-12d3-a456-426614174000", "123", "123e4567-e89b-12d3-a456-42661417400g"}},
+				{"URL", z.String().URL(), []string{"https://a.b/c", "a b", "//x"}},
+				{"Match", z.String().Match(re), []string{"ab-12", "AB-12", "ab-"}},
+				{"ContainsSpecial", z.String().ContainsSpecial(), []string{"a!", "ab", "é"}},
+				{"ContainsUpper", z.String().ContainsUpper().ContainsDigit(), []string{"aB1", "ab1", "AB"}},
+				{"Not.Email", z.String().Not().Email(), []string{"a@b.co", "nope", "x@y"}},
+				{"Not.UUID", z.String().Not().UUID(), []string{"123e4567-e89b-12d3-a456-426614174000", "123", ""}},
+				{"HasPrefix", z.String().HasPrefix("ab").HasSuffix("yz").Contains("m"), []string{"abmyz", "abyz", "m"}},
+				{"OneOf", z.String().OneOf(list), []string{"red", "blue", "green"}},
+			}
+			return &Shared{Owned: []any{list}, Thread: func(i int, out *[]string, yield func()) {
+				// three tests per thread, every thread starting with another one (8 threads cover all of them)
+				for k := 0; k < 3; k++ {
+					t := tests[(3*i+k)%len(tests)]
+					var d string
+					if k < 2 {
+						l := t.s.Parse(t.vals[i%3], &d)
+						*out = append(*out, t.name+": "+obsList(l, d))
+					} else {
+						d = t.vals[(i+1)%3]
+						l := t.s.Validate(&d)
+						*out = append(*out, t.name+" (validate): "+obsList(l, d))
+					}
+				}
+			}}
+		}},
 		{"8 shared Time/Bool/Float schemas with defaults and OneOf lists", nthreads, func() *Shared {
 			list := []float64{1.5, 2.5}
 			t0 := time.Date(2024, 1, 1, 0, 0, 0, 0, time.UTC)
